@@ -97,6 +97,9 @@ type fillRun struct {
 	npaths   int
 	bad      []string
 	unk      []string
+	ndrops   int
+	dropBad  []string
+	dropUnk  []string
 }
 
 func (fr *fillRun) sym(prefix string, lo int64) lin.Form {
@@ -184,6 +187,14 @@ func c04ExactFill(c *Ctx) {
 	default:
 		r.OK(rule, "WriteData/packet-filled-exactly", pos, fmt.Sprintf("on all %d paths through the loop body to writePacket: 4 + adaptation field bytes + len(payload) = m.packetSize (symbolic: caller's adaptation field with any StuffingLength, any PES header length, any amount written by writePESData within its contract)", fr.npaths))
 	}
+	switch {
+	case len(fr.dropBad) > 0:
+		r.Bad(rule, "WriteData/first-packet-given-up-only-without-room", pos, clipS(strings.Join(dedupS(fr.dropBad), " || "), 1500))
+	case len(fr.dropUnk) > 0:
+		r.Unknown(rule, "WriteData/first-packet-given-up-only-without-room", pos, clipS(strings.Join(dedupS(fr.dropUnk), " || "), 1500))
+	default:
+		r.OK(rule, "WriteData/first-packet-given-up-only-without-room", pos, fmt.Sprintf("%d path(s) go round the loop without writePacket; on each the facts imply bytesAvailable < 6 + calcPESOptionalHeaderLength (the PES header cannot fit next to the adaptation field)", fr.ndrops))
+	}
 	r.Assumptions = append(r.Assumptions, "F1: the adaptation field handed to WriteData is a real one (IsOneByteStuffing false) and fits one packet (its length fits the uint8 of calcPacketAdaptationFieldLength)")
 }
 
@@ -240,7 +251,16 @@ func fillContracts(c *Ctx, lk *layout.Checker, pes *ssa.Function) {
 		r.OK(rule, "writePESData/total-within-available", c.P.Pos(pes.Pos()), fmt.Sprintf("%d success outcomes: totalBytesWritten <= bytesAvailable (each outcome's own path facts)", nOK))
 	}
 	// (2) NewMuxer: m.bufWriter writes into m.buf
+	muxerWriterLink(c, rule, "bufWriter", "buf", false,
+		"what writePESData writes into m.bufWriter is what m.buf.Bytes() returns after m.buf.Reset()")
+}
+
+// muxerWriterLink: in NewMuxer the BitsWriter stored in field bw is astikit.NewBitsWriter(BitsWriterOptions{Writer: X}) with
+// X = &m.<target> (a buffer of the muxer) or X = the value of m.<target> (the output writer).
+func muxerWriterLink(c *Ctx, rule, bw, target string, byValue bool, what string) {
+	r := c.R
 	nm := c.fn("NewMuxer")
+	key := "NewMuxer/" + bw + "-writes-into-" + target
 	ok := false
 	if nm != nil {
 		for _, b := range nm.Blocks {
@@ -253,28 +273,42 @@ func fillContracts(c *Ctx, lk *layout.Checker, pes *ssa.Function) {
 				if !isFa {
 					continue
 				}
-				if n, okn := ssau.FieldName(fa); !okn || n != "bufWriter" {
+				if n, okn := ssau.FieldName(fa); !okn || n != bw {
 					continue
 				}
 				call, isCall := st.Val.(*ssa.Call)
 				if !isCall || call.Call.StaticCallee() == nil || call.Call.StaticCallee().Name() != "NewBitsWriter" {
 					continue
 				}
-				// the options literal: its Writer field holds &m.buf
-				if optsLoad, isLoad := call.Call.Args[0].(*ssa.UnOp); isLoad {
-					for _, ref := range *optsLoad.X.Referrers() {
-						if wfa, isW := ref.(*ssa.FieldAddr); isW {
-							if wn, _ := ssau.FieldName(wfa); wn == "Writer" {
-								for _, r2 := range *wfa.Referrers() {
-									if s2, isS := r2.(*ssa.Store); isS {
-										if mi, isMi := s2.Val.(*ssa.MakeInterface); isMi {
-											if bfa, isB := mi.X.(*ssa.FieldAddr); isB {
-												if bn, _ := ssau.FieldName(bfa); bn == "buf" {
-													ok = true
-												}
-											}
-										}
-									}
+				optsLoad, isLoad := call.Call.Args[0].(*ssa.UnOp)
+				if !isLoad {
+					continue
+				}
+				for _, ref := range *optsLoad.X.Referrers() {
+					wfa, isW := ref.(*ssa.FieldAddr)
+					if !isW {
+						continue
+					}
+					if wn, _ := ssau.FieldName(wfa); wn != "Writer" {
+						continue
+					}
+					for _, r2 := range *wfa.Referrers() {
+						s2, isS := r2.(*ssa.Store)
+						if !isS {
+							continue
+						}
+						v := s2.Val
+						if mi, isMi := v.(*ssa.MakeInterface); isMi && !byValue {
+							if bfa, isB := mi.X.(*ssa.FieldAddr); isB {
+								if bn, _ := ssau.FieldName(bfa); bn == target {
+									ok = true
+								}
+							}
+						}
+						if ld, isLd := v.(*ssa.UnOp); isLd && byValue {
+							if bfa, isB := ld.X.(*ssa.FieldAddr); isB {
+								if bn, _ := ssau.FieldName(bfa); bn == target {
+									ok = true
 								}
 							}
 						}
@@ -284,9 +318,9 @@ func fillContracts(c *Ctx, lk *layout.Checker, pes *ssa.Function) {
 		}
 	}
 	if ok {
-		r.OK(rule, "NewMuxer/bufWriter-writes-into-buf", c.P.Pos(nm.Pos()), "m.bufWriter = astikit.NewBitsWriter(Writer: &m.buf): what writePESData writes into m.bufWriter is what m.buf.Bytes() returns after m.buf.Reset()")
+		r.OK(rule, key, c.P.Pos(nm.Pos()), "m."+bw+" = astikit.NewBitsWriter(Writer: m."+target+"): "+what)
 	} else {
-		r.Unknown(rule, "NewMuxer/bufWriter-writes-into-buf", "", "could not establish that m.bufWriter writes into m.buf")
+		r.Unknown(rule, key, "", "could not establish that m."+bw+" writes into m."+target+": "+what)
 	}
 }
 
@@ -515,7 +549,8 @@ func (fr *fillRun) walk(b *ssa.BasicBlock, pred *ssa.BasicBlock, st *fstate, dep
 			follow := func(side int, s2 *fstate) {
 				nb := b.Succs[side]
 				if nb == fr.header {
-					return // next iteration: not this packet
+					fr.judgeDrop(s2) // next iteration without writePacket: the packet under construction is given up
+					return
 				}
 				fr.walk(nb, b, s2, depth+1)
 			}
@@ -560,6 +595,7 @@ func (fr *fillRun) walk(b *ssa.BasicBlock, pred *ssa.BasicBlock, st *fstate, dep
 			return
 		case *ssa.Jump:
 			if b.Succs[0] == fr.header {
+				fr.judgeDrop(st)
 				return
 			}
 			fr.walk(b.Succs[0], b, st, depth+1)
@@ -771,6 +807,43 @@ func (fr *fillRun) call(st *fstate, in *ssa.Call) fval {
 		return fval{isInt: true, f: fr.sym("call:"+name, lin.NegInf)}
 	}
 	return fval{}
+}
+
+// judgeDrop: a path goes round the loop without writePacket. That is the documented case "the adaptation field and the PES
+// header do not fit one packet" (an open known finding of C01 as far as the lost adaptation field is concerned); what is
+// decided here is that it happens ONLY then: the path's facts must imply bytesAvailable < 6 + calcPESOptionalHeaderLength,
+// bytesAvailable being what the packet had left for the PES header.
+func (fr *fillRun) judgeDrop(st *fstate) {
+	fr.ndrops++
+	path := strings.Join(st.desc, ",")
+	pk, ok := fr.addrKey(st, fr.target.Call.Args[1])
+	if !ok {
+		return
+	}
+	hasPayload := fr.load(st, pk+".Header.HasPayload", types.Typ[types.Bool])
+	if hasPayload.isBool && hasPayload.b == 1 {
+		fr.dropBad = append(fr.dropBad, "["+path+"] a packet with payload is built but the loop goes on without writing it")
+		return
+	}
+	af := fr.load(st, pk+".AdaptationField", types.NewPointer(types.Typ[types.Int]))
+	var avail lin.Form
+	switch {
+	case af.isPtr && af.pk == fpCallerAF:
+		s := fr.load(st, "callerAF.StuffingLength", types.Typ[types.Int])
+		avail = s.f.Sub(lin.Sym("S0"))
+	case af.isPtr && af.pk == fpStuffing:
+		avail = af.n
+	default:
+		fr.dropUnk = append(fr.dropUnk, "["+path+"] a packet is given up whose adaptation field is neither the caller's nor a stuffing field")
+		return
+	}
+	h := fr.ip.Harness(fr.wd)
+	h.Facts = append(h.Facts, st.facts...)
+	goal := fr.ip.SimplifyForm(lin.Sym("H").AddC(6).Sub(avail).AddC(-1), h)
+	if h.ProveSimplified(goal) {
+		return
+	}
+	fr.dropBad = append(fr.dropBad, fmt.Sprintf("[%s] the first packet of the unit is given up although %s bytes are free and the PES header needs 6 + H: not known to be too small (cannot show %s >= 0)", path, avail.String(), goal.String()))
 }
 
 func (fr *fillRun) judge(st *fstate) {
